@@ -455,7 +455,10 @@ Record errinfo := mkErr { ekind_of : ekind; eline : nat; ecol : Z; esrcline : by
 Inductive signal := SigBreak | SigContinue | SigReturn | SigNext | SigExit.
 
 (* IoRaise is a ghost event: it marks the point where an error was raised (C11) *)
-Inductive io_event := IoWrite (b : bytes) | IoRead (n : nat) | IoReadEOF | IoReadFail | IoRaise.
+Inductive io_event :=
+| IoWrite (b : bytes) | IoRead (n : nat) | IoReadEOF | IoReadFail
+| IoRaise                      (* ghost: an error was raised here *)
+| IoSignalAt (t : token).      (* ghost: e.signalToken := t (the next/break/continue executed last) *)
 
 Record st := mkSt {
   hp : heap;
@@ -516,6 +519,16 @@ Definition log_io (evs : list io_event) : M unit := fun s =>
 
 Definition raise_err {A} (e : errinfo) : M A := fun s =>
   (Err e, mkSt (hp s) (frames s) (rule_root s) (root s) (retval s) (IoRaise :: io s)).
+
+(* e.signalToken: the token of the most recent next/break/continue statement *)
+Definition note_signal (t : token) : M unit := fun s =>
+  (Ok tt, mkSt (hp s) (frames s) (rule_root s) (root s) (retval s) (IoSignalAt t :: io s)).
+Fixpoint last_signal_token (l : list io_event) : option token :=
+  match l with
+  | [] => None
+  | IoSignalAt t :: _ => Some t
+  | _ :: r => last_signal_token r
+  end.
 
 (* all bytes written so far *)
 Definition output_of (l : list io_event) : bytes :=
